@@ -38,6 +38,8 @@ type repCase struct {
 	encCAddr    []types.HostAddress
 	authOff     time.Duration
 	startOff    time.Duration
+	authYears   int // authtime / starttime moved by whole years (beyond what a Duration can express)
+	startYears  int
 	noStart     bool
 	wrongKey    bool
 	usage       uint32 // 0: the right one
@@ -77,6 +79,8 @@ func (c repCase) describe() string {
 	add(len(c.encCAddr) > 0, fmt.Sprintf("caddr=%d", len(c.encCAddr)))
 	add(c.authOff != 0, fmt.Sprintf("auth=%v", c.authOff))
 	add(c.startOff != 0, fmt.Sprintf("start=%v", c.startOff))
+	add(c.authYears != 0, fmt.Sprintf("auth=%+dy", c.authYears))
+	add(c.startYears != 0, fmt.Sprintf("start=%+dy", c.startYears))
 	add(c.noStart, "nostart")
 	add(c.wrongKey, "wrongkey")
 	add(c.usage != 0, fmt.Sprintf("usage=%d", c.usage))
@@ -183,14 +187,18 @@ func mintKDCRepKey(rng *RNG, c repCase, rq kdcReqInfo, clientKey types.Encryptio
 	fl := types.NewKrbFlags()
 	types.SetFlag(&fl, 1)
 	enc := messages.EncKDCRepPart{Key: sessKey, LastReqs: []messages.LastReq{{LRType: 0, LRValue: now.Truncate(time.Second)}},
-		Nonce: rq.nonce + c.encNonceOff, Flags: fl, AuthTime: now.Add(c.authOff).Truncate(time.Second),
+		Nonce: rq.nonce + c.encNonceOff, Flags: fl, AuthTime: now.Add(c.authOff).AddDate(c.authYears, 0, 0).Truncate(time.Second),
 		EndTime: now.Add(10 * time.Hour).Truncate(time.Second), RenewTill: now.Add(24 * time.Hour).Truncate(time.Second),
 		SRealm: rq.realm, SName: rq.sname, CAddr: c.encCAddr}
 	if !c.noStart {
-		enc.StartTime = now.Add(c.startOff).Truncate(time.Second)
+		enc.StartTime = now.Add(c.startOff).AddDate(c.startYears, 0, 0).Truncate(time.Second)
 	}
 	if c.encSName != nil {
 		enc.SName = types.PrincipalName{NameType: rq.sname.NameType, NameString: c.encSName}
+		if len(c.encSName) == 1 && c.encSName[0] == "=" {
+			// the requested name's components joined into one: reads the same, is another principal
+			enc.SName.NameString = []string{strings.Join(rq.sname.NameString, "/")}
+		}
 	}
 	if c.encSRealm != "" {
 		enc.SRealm = c.encSRealm
